@@ -10,6 +10,8 @@
 import LiteFSVerif.Proofs.Engine
 import LiteFSVerif.Proofs.Image
 import LiteFSVerif.Proofs.ImportBytes
+import LiteFSVerif.Gen.Skel
+import LiteFSVerif.Model.ExpectedSkel
 
 set_option linter.unusedSimpArgs false
 
@@ -120,5 +122,14 @@ theorem C16_import_bytes (s s' : Engine.Eng) (data : ByteArray) (h : Engine.impo
         ∃ d', s'.dbFile = some d' ∧ d'.size = hd.pageN * hd.pageSize ∧
           ∀ b, b < d'.size → BA.getD d' b = Engine.importedByte data b) :=
   Engine.import_bytes s s' data h
+
+/-- the control skeletons (branch conditions, loop heads, returns, order of calls and of state
+    assignments) of `DB.Import`, `DB.importToLTX`, regenerated from the current source on every run, are the ones the
+    model was written and validated against (Model/ExpectedSkel.lean): a reordered, dropped or
+    altered check or call in these functions breaks this theorem -/
+theorem C16_source_skeletons :
+    Gen.Skel.DB_Import = Expected.Skel.DB_Import ∧
+    Gen.Skel.DB_importToLTX = Expected.Skel.DB_importToLTX :=
+  ⟨rfl, rfl⟩
 
 end LiteFSVerif.C16
